@@ -271,22 +271,28 @@ _p("C01", modules=["record_protection", "framing", "framing_unbounded", "framing
    composition_assumptions=["the handshake phase ends in the state the application phase starts from (keys.installed post-state = compose.application_phase pre-state)"],
    not_under_contract=["Decryptor.inflate (compression)", "Session.handle_tls_client_hello (one slice)"])
 
-_p("C02", modules=["quic_session_c", "quic_keystate", "quic_dissector_c", "quic_tls_c", "quic_output", "demux", "quic_pkn", "keys", "quic_varint", "quic_frame", "robustness"], level="other",
-   technique="contract-based deductive verification of the links of the QUIC pipeline (dissector field extraction included); one bounded link",
+_p("C02", modules=["quic_session_c", "quic_crypto_unbounded", "quic_keystate", "quic_dissector_c", "quic_tls_c", "quic_output", "demux", "quic_pkn", "keys", "quic_varint", "quic_frame", "robustness"], level="other",
+   technique="contract-based deductive verification of the links of the QUIC pipeline (dissector field extraction and CRYPTO reassembly loop included); one bounded composition cross-check",
    level_text="Links discharged on the real code: routing by connection ID / address (demux.quic_routing, any IDs incl. zero-length); header-protection removal and packet-number "
               "reconstruction (C16); keys (C15: Initial once and for all, handshake/0-RTT/1-RTT, key update generations); decrypt_packet opens each packet with the decryptor "
               "of its type/epoch, the reconstructed packet number and the RFC 9001 5.3 associated data (header through packet number) and handles the parsed frames once, in "
               "order; frames (C17, unbounded); handle_frame appends STREAM (and CRYPTO) frames in order and registers NEW_CONNECTION_ID for its sender; Retry resets exactly the "
-              "handshake state; CRYPTO reassembly delivers the stream bytes in order for every arrival order (BOUNDED to 3 fragments); output grouping per capture timestamp "
+              "handshake state; CRYPTO reassembly: UNBOUNDED per-call loop contract of update_session (quic.crypto_unbounded: any number of buffered fragments, gaps and duplicates "
+              "included - what is handed on is always the stream's next contiguous piece, consumed fragments leave the buffer, a gap-free run is delivered completely), the "
+              "composition over whole arrival orders BOUNDED to 3 fragments; output grouping per capture timestamp "
               "with direction and payload (transition relation + final flush).",
    level_note="level 'other': extract_quic_packet is under contract for datagrams laid out as RFC 9000 17.2/17.3 say (quic.dissector.*: every field, the Length-delimited payload, the "
               "bytes left for the next coalesced packet, the header-protection sample/key/algorithm; all connection-ID lengths, varint widths, packet-number lengths) and, in the "
               "thorough tier, for arbitrary bytes (no exception, progress); QuicSession.handle_packet (every coalesced packet dissected with the CURRENT keys and suite), handle_crypto_frame "
               "(keys follow the negotiated suite) and check_key_epoch are under contract; the composition into 'one output datagram per input datagram' is on paper; AEADs are uninterpreted",
    design_ref="DESIGN.md 4 C02",
-   explanation="All links are proved per function (the CRYPTO reassembly within a bound); the end-to-end composition is a paper argument.",
-   assumptions=["struct.unpack_from splits a buffer by a format of B and <n>s items (assumed contract of the struct module)"], trusted_base=["cryptography AEADs", "struct"],
-   bounded=[{"function": "QuicTlsSession.update_session", "bound": "a CRYPTO stream prefix cut into <= 3 fragments (any cut points, any order)", "counted_as": "bounded"}],
+   explanation="All links are proved per function (the CRYPTO reassembly scan without bound per call; its composition over arrival orders within a bound); the end-to-end composition is a paper argument.",
+   assumptions=["struct.unpack_from splits a buffer by a format of B and <n>s items (assumed contract of the struct module)",
+                "quic.crypto_unbounded: list.sort(key) leaves a stable permutation in key order; every buffered CRYPTO fragment carries the bytes of one stream at its offset and "
+                "crypto_length = len(crypto) (frame contract, C17); the fold cur(i)/took(i) is a ghost definition instantiated at the indices the loop touches; lifting the per-call "
+                "contract to 'all fragments of a cut, in any order' is a paper induction over the calls (cross-checked by the bounded harness)"], trusted_base=["cryptography AEADs", "struct"],
+   bounded=[{"function": "QuicTlsSession.update_session composed over a whole arrival order (quic.crypto_reassembly)", "bound": "a CRYPTO stream prefix cut into <= 3 fragments (any cut points, any order)",
+            "counted_as": "bounded cross-check of the composition; the per-call contract of the scan loop is discharged WITHOUT bound by quic.crypto_unbounded.update_session (list.sort's contract assumed)"}],
    not_under_contract=["QuicTlsSession.get_extensions / get_quic_transport_parameters (ALPN, grease bit: not needed for the exported data)"])
 
 _p("C13", modules=["metadata", "quic_output", "tcp_output", "robustness", "record_protection", "compose_tls"], level="other",
@@ -302,7 +308,7 @@ _p("C13", modules=["metadata", "quic_output", "tcp_output", "robustness", "recor
    design_ref="DESIGN.md 4 C13", explanation="Per-record and per-builder obligations discharged for both values of the flag; the whole-run subsequence statement is their composition (paper).",
    assumptions=[], trusted_base=[], not_under_contract=["handle_tls_client_hello / handle_tls_server_hello under the product harness"])
 
-_p("C08", modules=["prefix", "framing", "framing_unbounded", "framing_history", "tcp_output", "quic_output", "main_run", "demux", "compose_tls"], level="other",
+_p("C08", modules=["quic_crypto_unbounded", "prefix", "framing", "framing_unbounded", "framing_history", "tcp_output", "quic_output", "main_run", "demux", "compose_tls"], level="other",
    technique="syntactic frame obligations (append-only accumulators, no look-ahead) + bounded product contract + builder transition relations",
    level_text="The export is a left fold over the capture. Discharged: every accumulating list (packet_buffer, application_traffic, output_buffer, the builders' out lists, "
               "main's session/key lists after the reset) is append-only; each fold loop reads its input only through its loop variable (no look-ahead, no second pass); "
